@@ -77,12 +77,15 @@ def main():
     rep.extra["axioms"] = {n: a for n, a in ax.items()}
     checker = f"lake build Hdl21Model.Props.{prop} && lake env lean .audit/{prop}.lean (#print axioms)"
     if tier == "thorough" and ok_props:
+        # the property's theorems *and* every model / lemma file of this project they rest on (the import closure inside Hdl21Model)
+        mods = common.import_closure(f"Hdl21Model.Props.{prop}")
         p = subprocess.run(
-            ["lake", "env", "leanchecker", f"Hdl21Model.Props.{prop}"],
+            ["lake", "env", "leanchecker"] + mods,
             cwd=common.LEAN, capture_output=True, text=True, timeout=3000,
         )
+        rep.extra["leanchecker_modules"] = len(mods)
         rep.extra["leanchecker"] = {"rc": p.returncode, "tail": (p.stdout + p.stderr)[-300:]}
-        checker += f" && lake env leanchecker Hdl21Model.Props.{prop}"
+        checker += f" && lake env leanchecker Hdl21Model.Props.{prop} + its {len(mods) - 1} imported Hdl21Model modules"
         if p.returncode != 0:
             rep.proof_broken.append({"leanchecker": (p.stdout + p.stderr)[-500:]})
 
